@@ -655,6 +655,27 @@ def rt_get(obj, k, default=None):
     return obj.get(k, default)
 
 
+def rt_strmeth(obj, name, *args):
+    """obj.find(x) etc. where obj is a real str/bytes and an argument is symbolic"""
+    if isinstance(obj, (_b.str, _b.bytes)) and args and isinstance(args[0], (SymSeq, SymInt)) or \
+            (isinstance(obj, (_b.str, _b.bytes)) and any(isinstance(a, (SymInt, SymBool)) for a in args[1:])):
+        kind = "str" if isinstance(obj, _b.str) else "bytes"
+        sub = args[0]
+        if name == "find" and _b.len(args) == 1 and isinstance(sub, SymSeq) and _b.len(sub) == 1 and _b.len(obj) <= 256:
+            ch = sub.items[0]
+            from .seq import table_source
+            src = table_source(ch, obj)
+            if src is not None:
+                return src
+            r = -1
+            its = items_of(obj)
+            for i in range(_b.len(its) - 1, -1, -1):
+                r = ite(ch == its[i], i, r)
+            return r
+        return getattr(SymSeq(kind, items_of(obj)), name)(*args)
+    return getattr(obj, name)(*args)
+
+
 def rt_ite(cond, fa, fb):
     """`a if cond else b` with call-free arms: merge instead of fork when possible"""
     c = truth(cond) if isinstance(cond, (SymBool, SymInt)) else cond
@@ -792,6 +813,6 @@ def make_builtins(import_hook):
         hex=hex_, sum=sum_, repr=repr_, memoryview=memoryview_,
         __import__=import_hook,
         __symx_sub__=rt_subscript, __symx_ite__=rt_ite, __symx_mod__=rt_mod, __symx_join__=join_,
-        __symx_msg__=rt_msg, __symx_super__=rt_super, __symx_slice__=slice, __symx_dict__=SymDict, __symx_in__=rt_in, __symx_get__=rt_get, __symx_format__=rt_format,
+        __symx_msg__=rt_msg, __symx_super__=rt_super, __symx_strmeth__=rt_strmeth, __symx_slice__=slice, __symx_dict__=SymDict, __symx_in__=rt_in, __symx_get__=rt_get, __symx_format__=rt_format,
     )
     return d
